@@ -15,6 +15,7 @@ TRUSTED = [
     "not proved (stated in coq/C01/Props.v as *_partial): one end-to-end statement through reorder_runs (canonical strings of import / mod runs), merge_derives inside macro matchers, the atom-level normalisations done in `tree`, injectivity of flatten; fuel sufficiency of the closures loop",
     "extraction: Require Extraction + ExtrOcamlBasic only (bool, option, unit, list, prod, sumbool, sumor); nat, positive, N stay extracted inductives; no Extract Constant / Extract Inductive of ours; the OCaml driver ocaml/c01/main.ml (int <-> N, UTF-8, hex, md5, line reading) is trusted; a sample of every run is re-evaluated by vm_compute inside Coq and compared with the extracted binary",
     "rustc_lexer (the harness tokeniser of inputs and outputs) and rustfmt's own parser (re-formatting the output in process decides `parses under the same edition`)",
+    "under use_field_init_shorthand = true the collapse `{ f: f,` -> `{ f,` is applied to the token lists of input and output by a python pre-pass (checks/c01.py: collapse_field_init) before the proved normaliser: trusted, not proved",
     "adequacy of the closed list of normalisations as a definition of `denotes the same program` (no formal semantics of Rust is available)",
 ]
 GRID_WIDTHS = ["20", "37", "50", "80", "100", "200"]
@@ -32,7 +33,7 @@ GRID_LAYOUTS = ["orig", "lines", "random"]
 # options whose purpose is to rewrite tokens in ways the validator does not know (the shorthand rewrites are in the
 # property's closed list but not in the validator; the comment options re-flow doc text by design): programs whose
 # header sets them are not judged, and the evidence says so
-UNJUDGED = {"use_try_shorthand": "true", "use_field_init_shorthand": "true", "normalize_doc_attributes": "true",
+UNJUDGED = {"use_try_shorthand": "true", "normalize_doc_attributes": "true",
             "condense_wildcard_suffixes": "true", "wrap_comments": "true", "normalize_comments": "true",
             "format_code_in_doc_comments": "true", "reorder_impl_items": "true"}
 # programs on which the validator is known to be incomplete (a normalisation of the property's closed list that `norm`
@@ -71,6 +72,14 @@ SYN_ITEMS = [
     "const _: () = { assert!(true); }; static X: [u8; { 1 + 2 }] = [0; 3];", "union U { a: (u8,), b: ManuallyDrop<String> }", "mod m { #![allow(unused)] //! inner doc\n pub use super::*; }",
     "/// outer doc\n/** block doc */\n#[inline(always)]\nfn documented() {}", "impl<const N: usize> Default for A<N> where [u8; N]: Sized { fn default() -> Self { Self([0; N]) } }",
 ]
+# recorded defects of the unchanged tree (known findings, keyed by these names): tokens are dropped
+DEFECT_FORMS = [
+    ("defect.inner_attr_empty_impl", "impl EmptyImpl { #![allow(inner_one)] }\n"),
+    ("defect.inner_attr_empty_trait", "trait EmptyTrait { #![allow(inner_two)] }\n"),
+    ("defect.inner_attr_empty_extern", "extern \"C\" { #![allow(inner_three)] }\n"),
+    ("defect.inner_attr_closure_body", "fn wrapper() {\n    let c = || { #![allow(inner_four)] 1 };\n}\n"),
+    ("defect.vec_repeat_stray_token", "fn wrapper() {\n    let v = vec![1; 2 3];\n}\n"),
+]
 SYN_MACRO_VARS = {"e": ["size", "zebra", "freeze"], "x": ["fuzzx", "zx_y"], "i": ["zip", "azimuth"], "s": ["zs", "buzzsaw"], "t": ["zt", "ritzt"], "n": ["zn", "horizon_zn"], "ty": ["zty", "fuzzty"], "a": ["za", "pizza"]}
 SYN_PRESETS = [[], [["indent_style", "Visual"]], [["style_edition", "2024"]], [["indent_style", "Visual"], ["style_edition", "2024"], ["fn_params_layout", "Vertical"]],
                [["brace_style", "AlwaysNextLine"], ["control_brace_style", "AlwaysNextLine"], ["where_single_line", "true"], ["fn_single_line", "true"]],
@@ -100,6 +109,7 @@ def synth_cases(tier, seed):
         for nm in names:
             use = "let %s   =   $%s;" % (nm, v) if v != "ty" else "let %s: $%s   =   make();" % (nm, v)
             progs.append(("macro_%s_%s" % (v, nm), "macro_rules! with_%s {\n    ($%s:%s) => {\n        %s\n            consume(%s,   0);\n    };\n}\n" % (nm, v, frag, use, nm)))
+    progs += DEFECT_FORMS
     out = []
     widths = list(range(20, 131))
     for pi, (name, text) in enumerate(progs):
@@ -109,6 +119,78 @@ def synth_cases(tier, seed):
                     continue
                 out.append((name, si, str(w), text, [["max_width", str(w)], ["edition", "2024"]] + pre))
     return out
+
+
+IMP_VIS = ["", "", "pub ", "pub(crate) ", "pub(super) ", "pub(in crate::m) ", "pub(in crate::m::n) ", "pub(self) "]
+IMP_ATTR = ["", "", "", "#[cfg(feature = \"x\")]\n", "#[allow(unused_imports)]\n", "#[cfg(not(feature = \"x\"))]\n"]
+IMP_ROOTS = ["crate::a", "crate::a::b", "crate::a::b::c", "std::collections", "std::io", "core::fmt", "serde", "serde::de", "super::sibling", "self::child"]
+
+
+def import_cases(tier, seed):
+    """runs of `use` items with distinct leaves, prefix-related paths, every kind of visibility and a few attributes, inside two
+    nested modules, under every imports_granularity x group_imports: (name, preset-id, width, text, config)"""
+    rnd = random.Random("c01-imports-%d" % seed)
+    out = []
+    for k in range(40 if tier != "thorough" else 600):
+        n = rnd.randint(2, 6)
+        lines = []
+        for j in range(n):
+            root = rnd.choice(IMP_ROOTS)
+            shape = rnd.random()
+            if shape < 0.5:
+                path = "%s::Leaf%d%d" % (root, k, j)
+            elif shape < 0.8:
+                path = "%s::{Left%d%d, inner::Right%d%d}" % (root, k, j, k, j)
+            else:
+                path = "%s::deep%d::{A%d%d, b%d::{C%d%d, D%d%d}}" % (root, j, k, j, j, k, j, k, j)
+            lines.append("        %s%suse %s;" % (rnd.choice(IMP_ATTR).replace("\n", "\n        "), rnd.choice(IMP_VIS), path))
+            if rnd.random() < 0.15:
+                lines.append("")
+        text = "mod m {\n    mod n {\n" + "\n".join(lines) + "\n        fn after() {}\n    }\n}\n"
+        for gi, g in enumerate(["Preserve", "Crate", "Module", "Item", "One"]):
+            for qi, q in enumerate(["Preserve", "StdExternalCrate", "One"]):
+                if tier != "thorough" and (k + gi + qi + seed) % 3:
+                    continue
+                w = rnd.choice(["40", "60", "100"])
+                out.append(("imports%d" % k, 100 + gi * 3 + qi, w, text, [["max_width", w], ["edition", "2021"], ["imports_granularity", g], ["group_imports", q]]))
+    return out
+
+
+FIELD_FORMS = [
+    "let h = Handler { callback: callback::<u32>, fallback: #[allow(unused)] fallback, name: name, other: other.clone(), wrapped: (wrapped), r#type: r#type, last: last };",
+    "let p = Point { x: x, y: y.0, z: -z, w: &w, v: v as u8, u: u?, t: *t, s: s!(), r: r[0], q: q::Q, ..base };",
+    "let Pair { left: left, right: ref right, mid: mid @ 1..=2, tail: _ } = pair;",
+    "let nested = Outer { inner: Inner { a: a, b: b::<T>() }, inner2: inner2, f: |a: a| a, g: g as g };",
+    "match value { Shape { kind: kind, size: size::MAX } => 1, Shape { kind: kind, .. } if kind == kind => 2 }",
+    "let t = Tuple { 0: 0, 1: one, one: one, long_field_name_number_one: long_field_name_number_one, long_field_name_number_two: long_field_name_number_two::<Generic> };",
+]
+
+
+def field_cases(tier, seed):
+    """struct literals / patterns whose fields are initialised by a same-named path, with and without generic arguments, attributes,
+    operators ..., under use_field_init_shorthand = true at many widths"""
+    out = []
+    for fi, f in enumerate(FIELD_FORMS):
+        text = "fn wrapper() {\n    %s\n}\n" % f
+        for w in range(20, 131):
+            if tier != "thorough" and (w + fi + seed) % 5:
+                continue
+            out.append(("fieldinit%d" % fi, 200, str(w), text, [["max_width", str(w)], ["edition", "2021"], ["use_field_init_shorthand", "true"]]))
+    return out
+
+
+def collapse_field_init(toks):
+    """`{ f: f,` -> `{ f,` on a lexer token list (white space and comments transparent).  The property's closed list allows this
+    rewrite under use_field_init_shorthand; it is NOT part of the proved normaliser (trusted python pre-pass, applied to input
+    and output alike, so it can only hide a difference that has exactly this shape)"""
+    sig = [i for i, (k, t) in enumerate(toks) if k not in ("ws", "lc", "bc")]
+    drop = set()
+    for n in range(1, len(sig) - 3):
+        a, b, c, d, e = (toks[sig[n + j]] for j in (-1, 0, 1, 2, 3))
+        if a[1] in ("{", ",", "]") and b[0] in ("id", "rid") and c[1] == ":" and d[0] == b[0] and d[1] == b[1] and e[1] in (",", "}"):
+            drop.add(sig[n + 1])
+            drop.add(sig[n + 2])
+    return [t for i, t in enumerate(toks) if i not in drop]
 
 
 def opts_code(cfg):
@@ -265,7 +347,7 @@ def run(tier, seed, replay):
         meta.append((p["id"], lay, pr, w))
     n_pool = len(cases)
     if not replay or json.load(open(replay)).get("pool_id", "").startswith("synth/"):
-        for name, si, w, text, cfg in synth_cases(tier, seed):
+        for name, si, w, text, cfg in synth_cases(tier, seed) + import_cases(tier, seed) + field_cases(tier, seed):
             if replay and ("synth/" + name != rp["pool_id"] or str(rp["width"]) != w or rp["preset"] != "syn%d" % si):
                 continue
             cases.append({"text": text, "config": cfg, "again": True, "lex": True})
@@ -285,6 +367,9 @@ def run(tier, seed, replay):
             if rep.violation("unparsable:%s" % pid, base, "the text rustfmt emitted for %s (layout %s, %s/w%s) is not accepted by its own parser" % (pid, lay, pr, w)):
                 found += 1
             continue
+        if ["use_field_init_shorthand", "true"] in [list(kv) for kv in c["config"]]:
+            r["in_tokens"] = collapse_field_init(r["in_tokens"])
+            r["out_tokens"] = collapse_field_init(r["out_tokens"])
         judged.append((i, opts_code(c["config"])))
         if r["out"] != c["text"]:
             n_changed += 1
@@ -335,7 +420,7 @@ def run(tier, seed, replay):
                 f.write(k + "\n")
     rep.coverage.update({
         "evaluations": len(cases), "pool_runs": n_pool, "synthetic_runs": len(cases) - n_pool, "accepted_and_judged": len(judged), "distinct_nontrivial": n_changed,
-        "synthetic_rule": "%d statement / pattern forms, the expression and item forms of the C16 margin sweep, %d further item forms (rare modifiers, negative impls, restricted visibilities, GATs, attributes; each also two modules deep), half of the statements again with trailing / block / leading comments that have continuation lines, and %d macro_rules definitions whose bodies use identifiers containing z<metavariable>, x %d layout presets (Block / Visual indent, style edition 2024, vertical parameters, next-line braces, Max heuristics) x every max_width 20..130 (quick: one width in six, selected by the seed)" % (len(SYN_STMTS), len(SYN_ITEMS), len(SYN_MACRO_VARS), len(SYN_PRESETS)),
+        "synthetic_rule": "%d statement / pattern forms, the expression and item forms of the C16 margin sweep, %d further item forms (rare modifiers, negative impls, restricted visibilities, GATs, attributes; each also two modules deep), half of the statements again with trailing / block / leading comments that have continuation lines, and %d macro_rules definitions whose bodies use identifiers containing z<metavariable>, x %d layout presets (Block / Visual indent, style edition 2024, vertical parameters, next-line braces, Max heuristics) x every max_width 20..130 (quick: one width in six, selected by the seed); plus generated runs of use items (distinct leaves, prefix-related paths, every kind of visibility, cfg / allow attributes, nested lists, inside two modules) under every imports_granularity x group_imports" % (len(SYN_STMTS), len(SYN_ITEMS), len(SYN_MACRO_VARS), len(SYN_PRESETS)),
         "not_judged_option_outside_validator": n_unjudged,
         "rule": "fixed grid: committed pool (%d programs) x layouts %s x presets %s x max_width %s; thorough = whole grid, quick = the 1/%d slice selected by the seed. For every run rustfmt accepts: (1) the output is formatted again in process and must be accepted by the parser; (2) the rustc_lexer token streams of input and output are normalised by the extracted, proved `norm` under the run's options and must be equal; (3) a sample is re-evaluated by vm_compute in Coq. Cases whose configuration sets one of %s to true are not judged (these options rewrite tokens in ways the validator does not implement), nor are %s" % (len(P), GRID_LAYOUTS, GRID_PRESETS, GRID_WIDTHS, MOD, sorted(UNJUDGED), INCOMPLETE),
         "programs": len(P),
